@@ -84,6 +84,9 @@ type c11Batch struct {
 	// observations
 	chunkShape []string // per series: chunk structure seen at the head stage
 	failed     []bool
+	// poisoned: the code under test panicked (recovered by vx.Guard and reported). A series or
+	// stripe lock may still be held, so the batch stops there and the Head is abandoned, not closed.
+	poisoned bool
 }
 
 func (b *c11Batch) replay(k int) any {
@@ -219,6 +222,7 @@ func (b *c11Batch) check(stage string, br BlockReader) {
 	q.Close()
 	switch {
 	case p != nil:
+		b.poisoned = true
 		b.viol(0, "tsdb-"+stage+"-samples-panic", fmt.Sprintf("(some series of the batch) %v\n%s", p, c11Trim(stack)))
 	case err != nil:
 		b.viol(0, "tsdb-"+stage+"-samples-error", "(some series of the batch) "+err.Error())
@@ -239,6 +243,7 @@ func (b *c11Batch) check(stage string, br BlockReader) {
 	cq.Close()
 	switch {
 	case p != nil:
+		b.poisoned = true
 		b.viol(0, "tsdb-"+stage+"-chunks-panic", fmt.Sprintf("(some series of the batch) %v\n%s", p, c11Trim(stack)))
 	case err != nil:
 		b.viol(0, "tsdb-"+stage+"-chunks-error", "(some series of the batch) "+err.Error())
@@ -297,6 +302,24 @@ func c11HasSharedChunk(shape string) bool {
 	return false
 }
 
+// markerJoined reports whether, at the head stage, some staleness marker of series k was stored in
+// the same chunk as the sample before it (and whether a gauge-hinted marker was).
+func (b *c11Batch) markerJoined(k int) (any, gauge bool) {
+	pos := 0
+	for _, f := range strings.Fields(b.chunkShape[k]) {
+		n := 0
+		fmt.Sscanf(f[strings.LastIndexByte(f, ':')+1:], "%d", &n)
+		for j := pos + 1; j < pos+n && j < len(b.seqs[k]); j++ {
+			if m := b.atoms[b.seqs[k][j]].M; m.Stale {
+				any = true
+				gauge = gauge || m.Gauge
+			}
+		}
+		pos += n
+	}
+	return any, gauge
+}
+
 func c11Trim(stack string) string {
 	if len(stack) > 1500 {
 		return stack[:1500]
@@ -306,6 +329,7 @@ func c11Trim(stack string) string {
 
 type c11Stats struct {
 	cases, multiChunk, shared, relaid, mmapped atomic.Int64
+	markerJoined, gaugeMarkerJoined            atomic.Int64
 }
 
 // run executes the batch: append, read from the head, m-map, read, compact into a block, read.
@@ -329,7 +353,11 @@ func (b *c11Batch) run(st *c11Stats, shapes func(string)) {
 	if err != nil {
 		panic(err)
 	}
-	defer h.Close()
+	defer func() {
+		if !b.poisoned {
+			h.Close()
+		}
+	}()
 	if err := h.Init(math.MinInt64); err != nil {
 		panic(err)
 	}
@@ -374,6 +402,7 @@ func (b *c11Batch) run(st *c11Stats, shapes func(string)) {
 				}
 			})
 			if p != nil {
+				b.poisoned = true
 				b.viol(k, "tsdb-append-panic", fmt.Sprintf("appending sample %d panicked: %v\n%s", i, p, c11Trim(stack)))
 				return
 			}
@@ -388,6 +417,7 @@ func (b *c11Batch) run(st *c11Stats, shapes func(string)) {
 			var err error
 			p, stack := vx.Guard(func() { err = commit() })
 			if p != nil {
+				b.poisoned = true
 				b.viol(0, "tsdb-commit-panic", fmt.Sprintf("(some series of the batch) commit at position %d panicked: %v\n%s", i, p, c11Trim(stack)))
 				return
 			}
@@ -403,6 +433,9 @@ func (b *c11Batch) run(st *c11Stats, shapes func(string)) {
 	all := NewRangeHead(h, math.MinInt64, math.MaxInt64)
 	// (b) head
 	b.check("head", all)
+	if b.poisoned {
+		return
+	}
 	// (c) after m-mapping
 	var nm int
 	if p, stack := vx.Guard(func() {
@@ -417,10 +450,14 @@ func (b *c11Batch) run(st *c11Stats, shapes func(string)) {
 			}
 		}
 	}); p != nil {
+		b.poisoned = true
 		b.viol(0, "tsdb-mmap-panic", fmt.Sprintf("(some series of the batch) %v\n%s", p, c11Trim(stack)))
 		return
 	}
 	b.check("mmap", all)
+	if b.poisoned {
+		return
+	}
 	// (d) compaction of the head into a block
 	bdir := filepath.Join(dir, "blocks")
 	if err := os.MkdirAll(bdir, 0o777); err != nil {
@@ -448,6 +485,7 @@ func (b *c11Batch) run(st *c11Stats, shapes func(string)) {
 		}
 	})
 	if p != nil {
+		b.poisoned = true
 		b.viol(0, "tsdb-compact-panic", fmt.Sprintf("(some series of the batch) %v\n%s", p, c11Trim(stack)))
 		return
 	}
@@ -466,9 +504,63 @@ func (b *c11Batch) run(st *c11Stats, shapes func(string)) {
 			}
 			if c11HasSharedChunk(b.chunkShape[k]) {
 				st.shared.Add(1)
+				if any, gauge := b.markerJoined(k); any {
+					st.markerJoined.Add(1)
+					if gauge {
+						st.gaugeMarkerJoined.Add(1)
+					}
+				}
 			}
 			shapes(b.chunkShape[k])
 		}
+	}
+}
+
+// ---------------------------------------------------------------------------
+// staleness-marker variants and the staleness-interplay alphabet
+// ---------------------------------------------------------------------------
+
+// c11Marker is a staleness marker (Sum = StaleNaN bit pattern) that is not the bare
+// &Histogram{Sum: StaleNaN} of the core set: it carries the given counter-reset hint (a sender that
+// stamps the hint of its series on every sample, markers included) and - when from != "" - the
+// schema, zero bucket, buckets and count of the specification from (a sender that marks staleness
+// by overwriting Sum only). The statement quantifies over staleness markers, not over bare ones.
+func c11Marker(shapes []histmodel.Shape, name, from string, layout int, hint histogram.CounterResetHint) histmodel.Shape {
+	m := histalpha.Derive(shapes, "e29-stale", 0, false).Model.Copy()
+	if from != "" {
+		m = histalpha.Derive(shapes, from, 0, false).Model.Copy()
+	}
+	m.Sum, m.Stale = math.Float64frombits(0x7ff0000000000002), true
+	m.Hint, m.Gauge = hint, hint == histogram.GaugeType
+	return histmodel.Shape{Name: fmt.Sprintf("%s/L%d", name, layout), Layout: layout, Exact: true, Model: m, Float: m.ToFloat(layout), Int: m.ToInt(layout)}
+}
+
+// c11FullShapes is histalpha.FullShapes plus the gauge-hinted bare staleness marker (the marker of
+// a gauge series: it is the only kind of marker the gauge paths of the appenders accept into a
+// non-empty chunk).
+func c11FullShapes() []histmodel.Shape {
+	full := histalpha.FullShapes()
+	return append(full, c11Marker(full, "g-e29-stale", "", 0, histogram.GaugeType))
+}
+
+// c11StaleShapes is the staleness-interplay alphabet: for each kind of series (counter, gauge,
+// custom-bucket gauge) two shapes that share a chunk when appended one after the other, and every
+// kind of staleness marker that can come between them (bare with each of the four hints; with
+// buckets left in place, unknown and gauge hint). Simplest first.
+func c11StaleShapes() []histmodel.Shape {
+	s := histmodel.Shapes()
+	return []histmodel.Shape{
+		histalpha.Derive(s, "e02-s0-two", 1, false),
+		histalpha.Derive(s, "e03-s0-grown", 0, false),
+		histalpha.Derive(s, "e29-stale", 0, false),
+		histalpha.Derive(s, "e04-s0-grown-front", 0, true),
+		histalpha.Derive(s, "e05-s0-gap", 1, true),
+		c11Marker(s, "g-e29-stale", "", 0, histogram.GaugeType),
+		histalpha.Derive(s, "c08-gauge", 0, false),
+		c11Marker(s, "e29r-stale-hint-reset", "", 0, histogram.CounterReset),
+		c11Marker(s, "e29n-stale-hint-noreset", "", 0, histogram.NotCounterReset),
+		c11Marker(s, "e29b-stale-with-buckets", "e03-s0-grown", 0, histogram.UnknownCounterReset),
+		c11Marker(s, "g-e29b-stale-with-buckets", "e05-s0-gap", 1, histogram.GaugeType),
 	}
 }
 
@@ -542,10 +634,11 @@ func c11SelfTest(t *testing.T, full []histalpha.Atom) {
 func TestVerifC11b(t *testing.T) {
 	r := vx.Start(t, "C11", "exploration")
 	defer r.Finish()
-	fullShapes, smallShapes := histalpha.FullShapes(), histalpha.SmallShapes()
+	fullShapes, smallShapes := c11FullShapes(), histalpha.SmallShapes()
 	alphas := map[string][]histalpha.Atom{
 		"full":  histalpha.Atoms(fullShapes),
 		"small": histalpha.Atoms(smallShapes),
+		"stale": histalpha.Atoms(c11StaleShapes()),
 		"one":   histalpha.OnePerShape(fullShapes),
 	}
 	st := &c11Stats{}
@@ -571,6 +664,17 @@ func TestVerifC11b(t *testing.T) {
 		return
 	}
 	c11SelfTest(t, alphas["full"])
+	for _, a := range alphas["stale"] {
+		var m *histmodel.H
+		if ih, fh := a.Fresh(); ih != nil {
+			m = histmodel.FromInt(ih)
+		} else {
+			m = histmodel.FromFloat(fh)
+		}
+		if d := histmodel.Diff(a.M, m, 0); d != "" || m.Hint != a.M.Hint {
+			t.Fatalf("self-test: atom %s does not decode to its model: %s", a.Name, d)
+		}
+	}
 
 	apis, both := []int{0, 1}, []bool{false, true}
 	var phases []c11Phase
@@ -578,6 +682,8 @@ func TestVerifC11b(t *testing.T) {
 		phases = []c11Phase{
 			{"full", 1, c11Cfgs(1, apis, nil, both)},
 			{"full", 2, c11Cfgs(2, apis, nil, []bool{false})},
+			// what may share a chunk with a staleness marker (see c11StaleShapes)
+			{"stale", 3, append(c11Cfgs(3, []int{0}, nil, []bool{false}), c11Cfgs(3, []int{1}, nil, []bool{true})...)},
 			{"small", 3, append(c11Cfgs(3, []int{0}, nil, []bool{false}), c11Cfgs(3, []int{1}, nil, []bool{true})...)},
 			{"one", 3, []c11Cfg{{API: 0, Mask: 0}, {API: 1, Mask: 2, OneTxn: true}}},
 		}
@@ -585,7 +691,9 @@ func TestVerifC11b(t *testing.T) {
 		phases = []c11Phase{
 			{"full", 1, c11Cfgs(1, apis, nil, both)},
 			{"full", 2, c11Cfgs(2, apis, nil, both)},
+			{"stale", 3, c11Cfgs(3, apis, nil, both)},
 			{"small", 3, c11Cfgs(3, apis, nil, both)},
+			{"stale", 4, []c11Cfg{{API: 0, Mask: 0}, {API: 0, Mask: 2}, {API: 0, Mask: 5}, {API: 1, Mask: 0, OneTxn: true}}},
 			{"full", 3, []c11Cfg{{API: 0, Mask: 0}, {API: 1, Mask: 2, OneTxn: true}}},
 			{"one", 3, []c11Cfg{{API: 0, Mask: 1}, {API: 0, Mask: 2}, {API: 0, Mask: 3}, {API: 1, Mask: 0}}},
 			{"small", 4, []c11Cfg{{API: 0, Mask: 0}, {API: 0, Mask: 2}, {API: 0, Mask: 5}, {API: 1, Mask: 7, OneTxn: true}}},
@@ -654,10 +762,16 @@ func TestVerifC11b(t *testing.T) {
 	r.Count("head_cases_stored_in_several_chunks", int(st.multiChunk.Load()))
 	r.Count("head_cases_with_mmapped_chunks", int(st.mmapped.Load()))
 	r.Count("head_cases_with_backward_insert_into_caller_histogram", int(st.relaid.Load()))
+	r.Count("head_cases_with_marker_joining_a_chunk", int(st.markerJoined.Load()))
+	r.Count("head_cases_with_gauge_marker_joining_a_chunk", int(st.gaugeMarkerJoined.Load()))
 	r.Set("phases_head", desc)
 	r.Set("depth_completed_head", completed)
 	r.Set("rule_head", "parts (b)-(d): every sequence of atoms of the stated alphabets and lengths is one series of a real Head (chunk range 1000, up to 4096 series per Head), under every listed configuration (Appender + plain encodings or AppenderV2 with start timestamps + ST-capable encodings; a chunk-range boundary before any subset of the samples; one commit per position or a single transaction). Each series is read through the sample querier (fresh objects, kept until the series is exhausted) and the chunk querier (recycled iterator and object, all samples as float histograms) from the head, again after Head.mmapHeadChunks, and from the block written by LeveledCompactor.Write of the head and re-opened from disk; compared with histmodel at every timestamp; the caller's objects are re-decoded at the end. distinct_nontrivial counts the enumerated (sequence, configuration) cases (distinct by construction) in which the head kept at least two samples in one chunk, i.e. an appendable/recode decision came out as same-chunk; cases stored in several chunks, with m-mapped chunks and with empty buckets inserted into the caller's object are counted separately.")
 	r.Set("rule", "parts (b)-(d): see rule_head")
+	if !r.TooManyViolations() && (st.markerJoined.Load() == 0 || st.gaugeMarkerJoined.Load() == 0) {
+		// the full alphabet at length 2 (always completed) already contains these cases
+		t.Fatalf("vacuous: staleness marker stored in the chunk of its predecessor in %d cases, a gauge-hinted one in %d", st.markerJoined.Load(), st.gaugeMarkerJoined.Load())
+	}
 	if !r.Expired() && (st.shared.Load() == 0 || st.multiChunk.Load() == 0 || st.mmapped.Load() == 0 || st.relaid.Load() == 0) {
 		t.Fatalf("vacuous: multi-chunk=%d mmapped=%d caller re-laid out=%d", st.multiChunk.Load(), st.mmapped.Load(), st.relaid.Load())
 	}
